@@ -374,7 +374,7 @@ pub fn run(args: &Args) {
 		"From Coq Require Import ZArith List. Import ListNotations. Open Scope Z_scope.\nFrom KV Require Import Base.Corr C06.Run C06.RunOwners.\nFrom KV Require C17.Run.",
 		"arun",
 		150,
-		"one case = one history of set()/update() calls on a real kira::Parameter (f64 or Decibels) with generated targets (fixed / modulator-mapped), durations (0, sub-update, dyadic, arbitrary), easings, start times (immediate / delayed / clock present, paused, absent) and update partitions; distinct = distinct history text; non-trivial = contains at least one set and two updates",
+		"one case = one history of set()/update() calls on a real kira::Parameter (f64 or Decibels) with generated targets (fixed / modulator-mapped), durations (0, sub-update, dyadic, arbitrary), easings, start times (immediate / delayed / clock present, paused, absent) and update partitions; or one history of handle commands and callbacks (random partitions, not multiples of the internal buffer, one-frame callbacks) on a real AudioManager with the parameter inside its owner: static / streaming sound (volume, panning, playback rate while Playing / Pausing / Paused / WaitingToResume / start pending), sub-track + send route + send track + main track volumes, tweener and LFO modulators, a value linked at run time to the listener distance; distinct = distinct history text; non-trivial = contains at least one set and two updates",
 	);
 	let ids = ids();
 
@@ -1153,7 +1153,7 @@ fn gen_snd(r: &mut Rng, streaming: bool) -> SndScen {
 	match mode {
 		"paused" | "pausing" => cbs.push(SCb { until_audible: false, cmds: vec![SCmd::Resume(Start::Imm, tw0())], frames: r.below(6) as usize + 1 }),
 		// the sound comes back by itself: short callbacks until it is heard
-		"waiting_delay" | "waiting_clock" | "start_delay" | "start_clock" => cbs.push(SCb { until_audible: true, cmds: vec![], frames: r.below(7) as usize + 2 }),
+		"waiting_delay" | "waiting_clock" | "start_delay" | "start_clock" => cbs.push(SCb { until_audible: true, cmds: vec![], frames: r.below(9) as usize + 6 }),
 		_ => {}
 	}
 	for _ in 0..r.range(2, 3) {
@@ -1174,7 +1174,7 @@ fn gen_snd(r: &mut Rng, streaming: bool) -> SndScen {
 
 fn owners_sounds(s: &mut Session, rng: &mut Rng, n: u64) {
 	s.flush();
-	s.shard_size = 5; // an owner case costs the model ~0.2 s: many small shards, evaluated in parallel
+	s.shard_size = 8; // an owner case costs the model up to ~0.7 s: small shards, evaluated in parallel
 	for i in 0..n {
 		let sc = gen_snd(rng, i % 2 == 1);
 		let tr = run_snd(&sc);
@@ -1196,7 +1196,1048 @@ fn owners_sounds(s: &mut Session, rng: &mut Rng, n: u64) {
 	}
 }
 
+// -----------------------------------------------------------------------------------------------------
+// (b) sub-track -> send route -> send track -> main track: four volume parameters, the sub-track paused / playing
+// -----------------------------------------------------------------------------------------------------
+#[derive(Clone, Debug)]
+enum KCmd {
+	Vol(f32, OTw),
+	Route(f32, OTw),
+	Send(f32, OTw),
+	Main(f32, OTw),
+	Pause(OTw),
+	Resume(Start, OTw),
+}
+#[derive(Clone, Debug)]
+struct KCb {
+	cmds: Vec<KCmd>,
+	frames: usize,
+	until_audible: bool,
+}
+#[derive(Clone, Debug)]
+struct TrkScen {
+	ibs: usize,
+	src: f32,
+	vol0: f32,
+	route0: f32,
+	send0: f32,
+	main0: f32,
+	mode: &'static str,
+	cbs: Vec<KCb>,
+}
+fn tstate_code(s: TrackPlaybackState) -> i128 {
+	match s {
+		TrackPlaybackState::Playing => 0,
+		TrackPlaybackState::Pausing => 1,
+		TrackPlaybackState::Paused => 2,
+		TrackPlaybackState::WaitingToResume => 3,
+		TrackPlaybackState::Resuming => 4,
+	}
+}
+fn kcmd_term(c: &KCmd) -> String {
+	match c {
+		KCmd::Vol(v, t) => format!("TVol {} {}", f32_bits_z(*v), otw_term(t)),
+		KCmd::Route(v, t) => format!("TRoute {} {}", f32_bits_z(*v), otw_term(t)),
+		KCmd::Send(v, t) => format!("TSend {} {}", f32_bits_z(*v), otw_term(t)),
+		KCmd::Main(v, t) => format!("TMain {} {}", f32_bits_z(*v), otw_term(t)),
+		KCmd::Pause(t) => format!("TPause {}", otw_term(t)),
+		KCmd::Resume(st, t) => format!("TResume {} {}", ostart_term(st), otw_term(t)),
+	}
+}
+struct TrkCbTrace {
+	state: TrackPlaybackState,
+	chunks: Vec<(usize, ClockSnap)>,
+	out: Vec<f32>,
+}
+struct TrkTrace {
+	exec: Vec<KCb>,
+	cbs: Vec<TrkCbTrace>,
+	tab: Vec<(u32, u32, u32)>,
+	panicked: Option<i128>,
+}
+fn run_trk(sc: &TrkScen) -> TrkTrace {
+	let _ = kira::verif::take_powf32_log();
+	let r = catch(|| {
+		let log: ChunkLog = Arc::new(Mutex::new(vec![]));
+		let ids: ClockIds = Arc::new(Mutex::new(vec![]));
+		let mut mgr: Mgr = manager(OSR, sc.ibs, Capacities::default(), MainTrackBuilder::new().volume(Decibels(sc.main0)).with_effect(ChunkProbeBuilder(ids.clone(), log.clone())));
+		let mut clock: ClockHandle = mgr.add_clock(ClockSpeed::TicksPerSecond(CLOCK_TPS)).unwrap();
+		clock.start();
+		ids.lock().unwrap().push(clock.id());
+		let cids = vec![clock.id()];
+		let mut send = mgr.add_send_track(SendTrackBuilder::new().volume(Decibels(sc.send0))).unwrap();
+		let mut sub = mgr.add_sub_track(TrackBuilder::new().volume(Decibels(sc.vol0)).with_send(send.id(), Decibels(sc.route0))).unwrap();
+		sub.play(crate::inject::Dc(sc.src)).unwrap();
+		let mut cbs = vec![];
+		let mut exec = vec![];
+		for cb in &sc.cbs {
+			let mut rep = 0;
+			loop {
+				let cmds = if rep == 0 { cb.cmds.clone() } else { vec![] };
+				for c in &cmds {
+					match c {
+						KCmd::Vol(v, t) => sub.set_volume(Decibels(*v), mk_otween(&cids, t)),
+						KCmd::Route(v, t) => sub.set_send(send.id(), Decibels(*v), mk_otween(&cids, t)).unwrap(),
+						KCmd::Send(v, t) => send.set_volume(Decibels(*v), mk_otween(&cids, t)),
+						KCmd::Main(v, t) => mgr.main_track().set_volume(Decibels(*v), mk_otween(&cids, t)),
+						KCmd::Pause(t) => sub.pause(mk_otween(&cids, t)),
+						KCmd::Resume(st, t) => sub.resume_at(mk_ostart(&cids, st), mk_otween(&cids, t)),
+					}
+				}
+				let out = mgr.backend_mut().callback(cb.frames, 2);
+				let chunks = std::mem::take(&mut *log.lock().unwrap());
+				let heard = out.iter().any(|x| *x != 0.0);
+				let mono: Vec<f32> = out.chunks(2).map(|c| if c[0].to_bits() == c[1].to_bits() { c[0] } else { f32::NAN }).collect();
+				cbs.push(TrkCbTrace { state: sub.state(), chunks, out: mono });
+				exec.push(KCb { cmds, frames: cb.frames, until_audible: false });
+				rep += 1;
+				if !cb.until_audible || heard || rep >= 60 {
+					break;
+				}
+			}
+		}
+		(exec, cbs)
+	});
+	let tab = kira::verif::take_powf32_log();
+	match r {
+		Outcome::Ok((exec, cbs)) => TrkTrace { exec, cbs, tab, panicked: None },
+		Outcome::Panic(c) => TrkTrace { exec: vec![], cbs: vec![], tab, panicked: Some(1000 + c) },
+		Outcome::Hang => TrkTrace { exec: vec![], cbs: vec![], tab, panicked: Some(2000) },
+	}
+}
+fn trk_term(sc: &TrkScen, tr: &TrkTrace) -> String {
+	let cbs = tr
+		.exec
+		.iter()
+		.zip(tr.cbs.iter())
+		.map(|(cb, t)| format!("KCb [{}] {}", cb.cmds.iter().map(kcmd_term).collect::<Vec<_>>().join("; "), chunks_term(&t.chunks)))
+		.collect::<Vec<_>>()
+		.join("; ");
+	format!(
+		"AOwn (CTrk {} {} {} {} {} {} [{}] {})",
+		OSR,
+		f32_bits_z(sc.src),
+		f32_bits_z(sc.vol0),
+		f32_bits_z(sc.route0),
+		f32_bits_z(sc.send0),
+		f32_bits_z(sc.main0),
+		cbs,
+		tab32_term(&tr.tab)
+	)
+}
+fn trk_obs(tr: &TrkTrace) -> Vec<i128> {
+	if let Some(c) = tr.panicked {
+		return vec![c];
+	}
+	let mut o = vec![];
+	for cb in &tr.cbs {
+		o.push(tstate_code(cb.state));
+		o.extend(cb.out.iter().map(|x| obs32(*x)));
+	}
+	o
+}
+fn trk_monitor(sc: &TrkScen, tr: &TrkTrace, checks: &mut (u64, u64)) -> Vec<String> {
+	let mut fails = vec![];
+	let mut vol = Law::new(sc.vol0 as f64);
+	let mut route = Law::new(sc.route0 as f64);
+	let mut send = Law::new(sc.send0 as f64);
+	let mut main = Law::new(sc.main0 as f64);
+	let mut state_before = TrackPlaybackState::Playing;
+	let mut was_silent = false;
+	for (k, (cb, t)) in tr.exec.iter().zip(tr.cbs.iter()).enumerate() {
+		let mut state_cmd = false;
+		let mut zero_resume = false;
+		for c in &cb.cmds {
+			match c {
+				KCmd::Vol(v, tw) => vol.set(*v as f64, tw),
+				KCmd::Route(v, tw) => route.set(*v as f64, tw),
+				KCmd::Send(v, tw) => send.set(*v as f64, tw),
+				KCmd::Main(v, tw) => main.set(*v as f64, tw),
+				KCmd::Pause(_) => state_cmd = true,
+				KCmd::Resume(st, tw) => {
+					state_cmd = true;
+					zero_resume = matches!(st, Start::Imm) && matches!(tw.start, Start::Imm) && tw.dur_ns == 0 && state_before == TrackPlaybackState::Paused && !cb.cmds.iter().any(|c| matches!(c, KCmd::Pause(_)));
+				}
+			}
+		}
+		let eligible_cb = (state_before == TrackPlaybackState::Playing && !state_cmd) || zero_resume;
+		let mut off = 0usize;
+		for (len, clocks) in &t.chunks {
+			let dtc = ODT * *len as f64;
+			for l in [&mut vol, &mut route, &mut send, &mut main] {
+				l.advance(dtc, clocks);
+			}
+			let frames = &t.out[off..off + len];
+			off += len;
+			let silent = frames.iter().all(|x| *x == 0.0);
+			if silent {
+				was_silent = true;
+			}
+			if eligible_cb && !silent {
+				checks.0 += 1;
+				if was_silent {
+					checks.1 += 1;
+				}
+				let got = frames[len - 1] as f64;
+				let x = sc.src as f64 * db_amp(vol.value() as f32 as f64);
+				let want = ((x + x * db_amp(route.value() as f32 as f64) * db_amp(send.value() as f32 as f64)) * db_amp(main.value() as f32 as f64)).clamp(-1.0, 1.0);
+				if (got - want).abs() > 1e-3 + 1e-3 * want.abs() {
+					fails.push(format!(
+						"callback {k}, chunk ending at frame {off}: last frame is {got:?}; the tween laws of the processed time give {want:?} = {} x track volume {:.3} dB [{}] x (1 + route {:.3} dB [{}] x send track {:.3} dB [{}]) x main track {:.3} dB [{}]",
+						sc.src,
+						vol.value(),
+						vol.describe(),
+						route.value(),
+						route.describe(),
+						send.value(),
+						send.describe(),
+						main.value(),
+						main.describe()
+					));
+				}
+			}
+		}
+		state_before = t.state;
+	}
+	fails
+}
+fn gen_kparam_cmds(r: &mut Rng, force: bool) -> Vec<KCmd> {
+	let mut v = vec![];
+	let pick = if force { r.below(4) } else { 99 };
+	let db = |r: &mut Rng| *r.pick(&[0.0f32, -3.0, -6.0, -10.0, -20.0, -12.34, -40.0, 1.5]);
+	if pick == 0 || r.chance(1, 3) {
+		let x = db(r);
+		v.push(KCmd::Vol(x, gen_otw(r, true)));
+	}
+	if pick == 1 || r.chance(1, 4) {
+		let x = db(r);
+		v.push(KCmd::Route(x, gen_otw(r, true)));
+	}
+	if pick == 2 || r.chance(1, 5) {
+		let x = db(r);
+		v.push(KCmd::Send(x, gen_otw(r, true)));
+	}
+	if pick == 3 || r.chance(1, 5) {
+		let x = db(r);
+		v.push(KCmd::Main(x, gen_otw(r, true)));
+	}
+	v
+}
+fn gen_trk(r: &mut Rng) -> TrkScen {
+	let ibs = *r.pick(&[8usize, 16, 32]);
+	let mode = *r.pick(&["paused", "paused", "pausing", "waiting_delay", "waiting_clock", "playing"]);
+	let mut cbs = vec![];
+	for _ in 0..r.below(3) {
+		cbs.push(KCb { until_audible: false, cmds: if r.chance(1, 3) { gen_kparam_cmds(r, false) } else { vec![] }, frames: r.below(4) as usize + 1 });
+	}
+	match mode {
+		"paused" => cbs.push(KCb { until_audible: false, cmds: vec![KCmd::Pause(tw0())], frames: gen_frames(r, ibs, 2) }),
+		"pausing" => cbs.push(KCb { until_audible: false, cmds: vec![KCmd::Pause(OTw { start: Start::Imm, dur_ns: (r.below(8) + 8) * 976_562, easing: Easing::Linear })], frames: r.below(3) as usize + 2 }),
+		"waiting_delay" => {
+			cbs.push(KCb { until_audible: false, cmds: vec![KCmd::Pause(tw0())], frames: gen_frames(r, ibs, 1) });
+			cbs.push(KCb { until_audible: false, cmds: vec![KCmd::Resume(Start::Del((r.below(100) + 60) * 976_562), tw0())], frames: gen_frames(r, ibs, 2) });
+		}
+		"waiting_clock" => {
+			cbs.push(KCb { until_audible: false, cmds: vec![KCmd::Pause(tw0())], frames: gen_frames(r, ibs, 1) });
+			cbs.push(KCb { until_audible: false, cmds: vec![KCmd::Resume(Start::Clk { clock: 0, ticks: r.below(5) + 5, fr: 0.0 }, tw0())], frames: gen_frames(r, ibs, 2) });
+		}
+		_ => {}
+	}
+	let n = r.range(3, 6) as usize;
+	let mut issued = false;
+	for k in 0..n {
+		let cmds = if k < 3 && (r.chance(2, 3) || (!issued && k == 2)) {
+			issued = true;
+			gen_kparam_cmds(r, true)
+		} else {
+			vec![]
+		};
+		let frames = if mode == "playing" { r.below(5) as usize + 1 } else if mode == "pausing" { r.below(6) as usize + 1 } else { gen_frames(r, ibs, 3) };
+		cbs.push(KCb { until_audible: false, cmds, frames });
+	}
+	match mode {
+		"paused" | "pausing" => cbs.push(KCb { until_audible: false, cmds: vec![KCmd::Resume(Start::Imm, tw0())], frames: r.below(6) as usize + 1 }),
+		"waiting_delay" | "waiting_clock" => cbs.push(KCb { until_audible: true, cmds: vec![], frames: r.below(9) as usize + 6 }),
+		_ => {}
+	}
+	for _ in 0..r.range(2, 3) {
+		cbs.push(KCb { until_audible: false, cmds: if r.chance(1, 5) { gen_kparam_cmds(r, false) } else { vec![] }, frames: r.below(6) as usize + 1 });
+	}
+	TrkScen {
+		ibs,
+		src: 0.25,
+		vol0: *r.pick(&[0.0f32, 0.0, -6.0]),
+		route0: *r.pick(&[0.0f32, -6.0, -60.0, -12.5]),
+		send0: *r.pick(&[0.0f32, -3.0]),
+		main0: *r.pick(&[0.0f32, 0.0, -1.5]),
+		mode,
+		cbs,
+	}
+}
+fn owners_tracks(s: &mut Session, rng: &mut Rng, n: u64) {
+	for _ in 0..n {
+		let sc = gen_trk(rng);
+		let tr = run_trk(&sc);
+		let term = trk_term(&sc, &tr);
+		s.case("owner_track_volumes", term.clone(), &trk_obs(&tr), Some(hash_key(&term)));
+		s.count(&format!("track_mode_{}", sc.mode));
+		if tr.panicked.is_some() {
+			s.fail(format!("{sc:?}"), "panic while driving a track through the manager".into(), None);
+			continue;
+		}
+		let mut checks = (0, 0);
+		let fails = trk_monitor(&sc, &tr, &mut checks);
+		*s.hist.entry("track_chunk_end_frames_judged".into()).or_insert(0) += checks.0;
+		*s.hist.entry("track_chunk_end_frames_judged_after_silence".into()).or_insert(0) += checks.1;
+		for f in fails {
+			s.fail(format!("constant sound on a sub-track routed to a send track, 1024 Hz, internal buffer {}: {:?}", sc.ibs, sc), f, None);
+		}
+	}
+}
+
+// -----------------------------------------------------------------------------------------------------
+// (c) (d) renderer-level owners: tweener and LFO modulators, a clock's speed, a listener's position, each seen once per
+// processed chunk by probe effects; callbacks that are not multiples of the internal buffer size
+// -----------------------------------------------------------------------------------------------------
+#[derive(Clone, Debug)]
+enum RCmd {
+	Tweener(f64, OTw),
+	LfoAmp(f64, OTw),
+	LfoOff(f64, OTw),
+	LfoFreq(f64, OTw),
+	ClockSpeed(f64, OTw),
+	Listener(f32, OTw),
+}
+#[derive(Clone, Debug)]
+struct RCb {
+	cmds: Vec<RCmd>,
+	frames: usize,
+}
+#[derive(Clone, Debug)]
+struct RenScen {
+	ibs: usize,
+	tw_init: f64,
+	lfo_amp0: f64,
+	lfo_off0: f64,
+	lfo_freq0: f64,
+	speed0: f64,
+	lis0: f32,
+	cbs: Vec<RCb>,
+}
+#[derive(Clone, Debug)]
+struct RenChunk {
+	len: usize,
+	tweener: Option<f64>,
+	lfo: Option<f64>,
+	saw: Option<f64>,
+	clock: Option<(bool, u64, f64)>,
+}
+type RenLog = Arc<Mutex<Vec<RenChunk>>>;
+type DistLog = Arc<Mutex<Vec<(usize, Option<f32>)>>>;
+type ModIds = Arc<Mutex<Vec<kira::modulator::ModulatorId>>>;
+struct RenProbe {
+	mods: ModIds,
+	clocks: ClockIds,
+	log: RenLog,
+}
+impl Effect for RenProbe {
+	fn process(&mut self, input: &mut [Frame], _dt: f64, info: &Info) {
+		let m = self.mods.lock().unwrap();
+		let c = self.clocks.lock().unwrap();
+		self.log.lock().unwrap().push(RenChunk {
+			len: input.len(),
+			tweener: m.first().and_then(|id| info.modulator_value(*id)),
+			lfo: m.get(1).and_then(|id| info.modulator_value(*id)),
+			saw: m.get(2).and_then(|id| info.modulator_value(*id)),
+			clock: c.first().and_then(|id| info.clock_info(*id)).map(|c| (c.ticking, c.time.ticks, c.time.fraction)),
+		});
+	}
+}
+struct RenProbeBuilder(ModIds, ClockIds, RenLog);
+impl EffectBuilder for RenProbeBuilder {
+	type Handle = ();
+	fn build(self) -> (Box<dyn Effect>, ()) {
+		(Box::new(RenProbe { mods: self.0, clocks: self.1, log: self.2 }), ())
+	}
+}
+struct DistProbe(DistLog);
+impl Effect for DistProbe {
+	fn process(&mut self, input: &mut [Frame], _dt: f64, info: &Info) {
+		self.0.lock().unwrap().push((input.len(), info.listener_distance()));
+	}
+}
+struct DistProbeBuilder(DistLog);
+impl EffectBuilder for DistProbeBuilder {
+	type Handle = ();
+	fn build(self) -> (Box<dyn Effect>, ()) {
+		(Box::new(DistProbe(self.0)), ())
+	}
+}
+fn v3(x: f32) -> mint::Vector3<f32> {
+	mint::Vector3 { x, y: 0.0, z: 0.0 }
+}
+fn quat_id() -> mint::Quaternion<f32> {
+	mint::Quaternion { v: mint::Vector3 { x: 0.0, y: 0.0, z: 0.0 }, s: 1.0 }
+}
+struct RenTrace {
+	per_cb: Vec<(Vec<RenChunk>, Vec<(usize, Option<f32>)>)>,
+	panicked: Option<i128>,
+}
+fn run_ren(sc: &RenScen) -> RenTrace {
+	let r = catch(|| {
+		let log: RenLog = Arc::new(Mutex::new(vec![]));
+		let dlog: DistLog = Arc::new(Mutex::new(vec![]));
+		let mids: ModIds = Arc::new(Mutex::new(vec![]));
+		let cids: ClockIds = Arc::new(Mutex::new(vec![]));
+		let mut mgr: Mgr = manager(OSR, sc.ibs, Capacities::default(), MainTrackBuilder::new().with_effect(RenProbeBuilder(mids.clone(), cids.clone(), log.clone())));
+		let mut tweener: TweenerHandle = mgr.add_modulator(TweenerBuilder { initial_value: sc.tw_init }).unwrap();
+		let mut lfo: LfoHandle = mgr
+			.add_modulator(LfoBuilder::new().waveform(Waveform::Pulse { width: 1.0 }).frequency(2.0).amplitude(sc.lfo_amp0).offset(sc.lfo_off0))
+			.unwrap();
+		let mut saw: LfoHandle = mgr.add_modulator(LfoBuilder::new().waveform(Waveform::Saw).frequency(sc.lfo_freq0).amplitude(1.0).offset(0.0)).unwrap();
+		*mids.lock().unwrap() = vec![tweener.id(), lfo.id(), saw.id()];
+		let mut clock: ClockHandle = mgr.add_clock(ClockSpeed::TicksPerSecond(sc.speed0)).unwrap();
+		clock.start();
+		cids.lock().unwrap().push(clock.id());
+		let mut listener = mgr.add_listener(v3(sc.lis0), quat_id()).unwrap();
+		let _track = mgr.add_spatial_sub_track(listener.id(), v3(0.0), SpatialTrackBuilder::new().with_effect(DistProbeBuilder(dlog.clone()))).unwrap();
+		let none: Vec<kira::clock::ClockId> = vec![];
+		let mut per_cb = vec![];
+		for cb in &sc.cbs {
+			for c in &cb.cmds {
+				match c {
+					RCmd::Tweener(v, t) => tweener.set(*v, mk_otween(&none, t)),
+					RCmd::LfoAmp(v, t) => lfo.set_amplitude(*v, mk_otween(&none, t)),
+					RCmd::LfoOff(v, t) => lfo.set_offset(*v, mk_otween(&none, t)),
+					RCmd::LfoFreq(v, t) => saw.set_frequency(*v, mk_otween(&none, t)),
+					RCmd::ClockSpeed(v, t) => clock.set_speed(ClockSpeed::TicksPerSecond(*v), mk_otween(&none, t)),
+					RCmd::Listener(v, t) => listener.set_position(v3(*v), mk_otween(&none, t)),
+				}
+			}
+			let _ = mgr.backend_mut().callback(cb.frames, 2);
+			per_cb.push((std::mem::take(&mut *log.lock().unwrap()), std::mem::take(&mut *dlog.lock().unwrap())));
+		}
+		per_cb
+	});
+	match r {
+		Outcome::Ok(per_cb) => RenTrace { per_cb, panicked: None },
+		Outcome::Panic(c) => RenTrace { per_cb: vec![], panicked: Some(1000 + c) },
+		Outcome::Hang => RenTrace { per_cb: vec![], panicked: Some(2000) },
+	}
+}
+/// the same history in the syntax of the C17 model (tweener = modulator 0, pulse LFO = modulator 1, one probe each)
+fn ren_term(sc: &RenScen) -> String {
+	let rtw = |t: &OTw| {
+		let (ek, ep) = easing_code(t.easing);
+		format!("(C17.Run.RTween {} {} {} {})", match &t.start { Start::Del(ns) => format!("{}", ns), _ => "(-1)".into() }, t.dur_ns, ek, z(ep))
+	};
+	let fx = |x: f64| format!("(C17.Run.RFixed {})", f64_bits_z(x));
+	let mut ops = vec![
+		format!("C17.Run.RAddTweener 0 {}", f64_bits_z(sc.tw_init)),
+		format!("C17.Run.RAddLfo 1 (C17.Run.RPulse {}) {} {} {} {}", f64_bits_z(1.0), fx(2.0), fx(sc.lfo_amp0), fx(sc.lfo_off0), f64_bits_z(0.0)),
+		format!("C17.Run.RAddProbe 100 0 {}", fx(0.0)),
+		format!("C17.Run.RAddProbe 101 1 {}", fx(0.0)),
+	];
+	for cb in &sc.cbs {
+		for c in &cb.cmds {
+			match c {
+				RCmd::Tweener(v, t) => ops.push(format!("C17.Run.RSetTweener 0 {} {}", f64_bits_z(*v), rtw(t))),
+				RCmd::LfoAmp(v, t) => ops.push(format!("C17.Run.RSetLfoParam 1 1 {} {}", fx(*v), rtw(t))),
+				RCmd::LfoOff(v, t) => ops.push(format!("C17.Run.RSetLfoParam 1 2 {} {}", fx(*v), rtw(t))),
+				_ => {}
+			}
+		}
+		ops.push(format!("C17.Run.RCb {}", cb.frames));
+	}
+	format!("AOwn (CMod (C17.Run.CScen {} {} [{}] [] []))", OSR, sc.ibs, ops.join("; "))
+}
+fn ren_obs(tr: &RenTrace) -> Vec<i128> {
+	let mut o = vec![];
+	for which in 0..2 {
+		for (chunks, _) in &tr.per_cb {
+			for c in chunks {
+				o.push(c.len as i128);
+				match if which == 0 { c.tweener } else { c.lfo } {
+					Some(v) => {
+						o.push(1);
+						o.push(obs64(v));
+					}
+					None => {
+						o.push(0);
+						o.push(0);
+					}
+				}
+				o.push(0); // the C17 probe's own parameter: Fixed(0.0)
+			}
+		}
+	}
+	o
+}
+fn ren_monitor(sc: &RenScen, tr: &RenTrace, checks: &mut u64) -> Vec<String> {
+	let mut fails = vec![];
+	let mut tweener = Law::new(sc.tw_init);
+	let mut amp = Law::new(sc.lfo_amp0);
+	let mut off = Law::new(sc.lfo_off0);
+	let mut freq = Law::new(sc.lfo_freq0);
+	let mut speed = Law::new(sc.speed0);
+	let mut lis = Law::new(sc.lis0 as f64);
+	let nc: ClockSnap = vec![];
+	let mut clock_prev: Option<f64> = None;
+	let mut phase_prev: Option<f64> = None;
+	let mut frames_total = 0usize;
+	for (k, (cb, (chunks, dists))) in sc.cbs.iter().zip(tr.per_cb.iter()).enumerate() {
+		for c in &cb.cmds {
+			match c {
+				RCmd::Tweener(v, t) => tweener.set(*v, t),
+				RCmd::LfoAmp(v, t) => amp.set(*v, t),
+				RCmd::LfoOff(v, t) => off.set(*v, t),
+				RCmd::LfoFreq(v, t) => freq.set(*v, t),
+				RCmd::ClockSpeed(v, t) => speed.set(*v, t),
+				RCmd::Listener(v, t) => lis.set(*v as f64, t),
+			}
+		}
+		if chunks.len() != dists.len() {
+			fails.push(format!("callback {k}: the main track was processed {} times, the spatial track {} times", chunks.len(), dists.len()));
+			continue;
+		}
+		for (j, (c, (dlen, dist))) in chunks.iter().zip(dists.iter()).enumerate() {
+			let dtc = ODT * c.len as f64;
+			frames_total += c.len;
+			for l in [&mut tweener, &mut amp, &mut off, &mut freq, &mut speed, &mut lis] {
+				l.advance(dtc, &nc);
+			}
+			*checks += 1;
+			let at = format!("callback {k}, chunk {j} ({} frames; {frames_total} frames = {} s processed in all)", c.len, frames_total as f64 * ODT);
+			if *dlen != c.len {
+				fails.push(format!("{at}: the spatial track was given {dlen} frames"));
+			}
+			// tweener modulator
+			match c.tweener {
+				Some(v) => {
+					let want = tweener.value();
+					if let Some(t) = tweener.target_exact {
+						if v.to_bits() != t.to_bits() {
+							fails.push(format!("{at}: the tweener modulator's tween is over, its value is {v:?} and not the target {t:?} exactly"));
+						}
+					} else if (v - want).abs() > 1e-9 * (1.0 + want.abs()) {
+						fails.push(format!("{at}: tweener modulator = {v:?}, the tween law of the processed time gives {want:?} [{}]", tweener.describe()));
+					}
+				}
+				None => fails.push(format!("{at}: the tweener modulator has no value")),
+			}
+			// LFO amplitude and offset (pulse of width 1: value = offset + amplitude)
+			match c.lfo {
+				Some(v) => {
+					let want = off.value() + amp.value();
+					let exact = amp.tw.is_none() && off.tw.is_none();
+					if (exact && v.to_bits() != want.to_bits()) || (v - want).abs() > 1e-9 * (1.0 + want.abs()) {
+						fails.push(format!("{at}: LFO (pulse, width 1) = {v:?}, offset + amplitude by their tween laws = {want:?} [offset {}; amplitude {}]", off.describe(), amp.describe()));
+					}
+				}
+				None => fails.push(format!("{at}: the LFO has no value")),
+			}
+			// LFO frequency (saw: value = fract(phase + 0.5) * 2 - 1; the phase advances by dt * frequency per chunk)
+			if let Some(v) = c.saw {
+				let phase = ((v + 1.0) / 2.0 + 0.5).fract();
+				if let Some(p0) = phase_prev {
+					let want = dtc * freq.value();
+					let got = (phase - p0).rem_euclid(1.0);
+					let d = (got - want.rem_euclid(1.0)).abs();
+					if d.min(1.0 - d) > 1e-9 {
+						fails.push(format!("{at}: the saw LFO's phase advanced by {got:?}, dt x frequency by its tween law = {want:?} [{}]", freq.describe()));
+					}
+				}
+				phase_prev = Some(phase);
+			}
+			// clock speed
+			if let Some((ticking, ticks, fr)) = c.clock {
+				let now = ticks as f64 + fr;
+				if let (true, Some(p0)) = (ticking, clock_prev) {
+					let want = speed.value() * dtc;
+					if ((now - p0) - want).abs() > 1e-9 * (1.0 + want.abs()) {
+						fails.push(format!("{at}: the clock advanced by {:?} ticks, speed by its tween law x chunk time = {want:?} [{}]", now - p0, speed.describe()));
+					}
+				}
+				if ticking {
+					clock_prev = Some(now);
+				}
+			}
+			// listener position, through the distance to a spatial track at the origin
+			match dist {
+				Some(d) => {
+					let want = lis.value().abs();
+					let exact = lis.tw.is_none();
+					if (exact && (*d as f64) != want) || (*d as f64 - want).abs() > 1e-4 * (1.0 + want) {
+						fails.push(format!("{at}: listener distance = {d:?}, |listener position| by its tween law = {want:?} [{}]", lis.describe()));
+					}
+				}
+				None => fails.push(format!("{at}: no listener distance on the spatial track")),
+			}
+		}
+	}
+	fails
+}
+fn gen_rtw(r: &mut Rng) -> OTw {
+	let mut t = gen_otw(r, false);
+	if r.chance(1, 3) {
+		t.dur_ns = (r.below(40) + 8) * 976_562 + r.below(1000); // short enough to end within the history
+	}
+	t
+}
+fn gen_ren(r: &mut Rng) -> RenScen {
+	let ibs = *r.pick(&[8usize, 16, 32, 128]);
+	let dec = |r: &mut Rng| (r.range(-20, 20) as f64) / 10.0; // tenths: differences are not exactly representable
+	let mut cbs = vec![];
+	let n = r.range(5, 12);
+	for k in 0..n {
+		let mut cmds = vec![];
+		if k == 0 || r.chance(1, 4) {
+			match r.below(6) {
+				0 | 1 => cmds.push(RCmd::Tweener(dec(r), gen_rtw(r))),
+				2 => {
+					let x = dec(r);
+					cmds.push(if r.chance(1, 2) { RCmd::LfoAmp(x, gen_rtw(r)) } else { RCmd::LfoOff(x, gen_rtw(r)) })
+				}
+				3 => cmds.push(RCmd::LfoFreq(*r.pick(&[0.5, 1.0, 3.0, 7.5]), gen_rtw(r))),
+				4 => cmds.push(RCmd::ClockSpeed(*r.pick(&[1.0, 10.0, 64.0, 100.5, 0.25]), gen_rtw(r))),
+				_ => cmds.push(RCmd::Listener(*r.pick(&[0.0f32, 1.0, -2.5, 10.1, 0.3]), gen_rtw(r))),
+			}
+			if r.chance(1, 3) {
+				cmds.push(RCmd::Tweener(dec(r), gen_rtw(r)));
+			}
+		}
+		// callbacks that are not multiples of the internal buffer size, one-frame callbacks, exact multiples
+		let frames = match r.below(6) {
+			0 => 1,
+			1 => ibs,
+			2 => 2 * ibs,
+			3 => ibs + 1 + r.below(ibs as u64 - 1) as usize,
+			_ => r.below(3 * ibs as u64) as usize + 1,
+		};
+		cbs.push(RCb { cmds, frames });
+	}
+	RenScen { ibs, tw_init: dec(r), lfo_amp0: 1.0, lfo_off0: dec(r), lfo_freq0: 2.0, speed0: *r.pick(&[2.0, 64.0, 10.0]), lis0: *r.pick(&[0.0f32, 1.5, -4.0]), cbs }
+}
+fn owners_renderer(s: &mut Session, rng: &mut Rng, n: u64) {
+	for _ in 0..n {
+		let sc = gen_ren(rng);
+		let tr = run_ren(&sc);
+		if tr.panicked.is_some() {
+			s.fail(format!("{sc:?}"), "panic while driving modulators / clock / listener through the manager".into(), None);
+			continue;
+		}
+		let term = ren_term(&sc);
+		s.case("owner_modulators", term.clone(), &ren_obs(&tr), Some(hash_key(&term)));
+		let mut checks = 0;
+		let fails = ren_monitor(&sc, &tr, &mut checks);
+		*s.hist.entry("renderer_chunks_judged".into()).or_insert(0) += checks;
+		for f in fails {
+			s.fail(format!("tweener + LFOs + clock + listener on a manager at 1024 Hz, internal buffer {}: {:?}", sc.ibs, sc), f, None);
+		}
+	}
+}
+
+/// The witness of `track_position_frozen_while_paused_refuted` on the real code: a spatial track is paused, told to
+/// move, half of the tween's time is processed, the track is resumed.  kira updates the position below the "not
+/// advancing" return (track/sub.rs:220); what it does is reported (not judged: see the final report of C06).
+fn late_parameter_witness(s: &mut Session) {
+	let r = catch(|| {
+		let dlog: DistLog = Arc::new(Mutex::new(vec![]));
+		let mut mgr: Mgr = manager(OSR, 16, Capacities::default(), MainTrackBuilder::new());
+		let listener = mgr.add_listener(v3(0.0), quat_id()).unwrap();
+		let mut track = mgr.add_spatial_sub_track(listener.id(), v3(0.0), SpatialTrackBuilder::new().with_effect(DistProbeBuilder(dlog.clone()))).unwrap();
+		let z = Tween { start_time: StartTime::Immediate, duration: Duration::ZERO, easing: Easing::Linear };
+		mgr.backend_mut().callback(16, 2);
+		track.pause(z);
+		mgr.backend_mut().callback(16, 2);
+		track.set_position(v3(10.0), Tween { start_time: StartTime::Immediate, duration: Duration::from_secs(1), easing: Easing::Linear });
+		mgr.backend_mut().callback(500, 2);
+		mgr.backend_mut().callback(12, 2);
+		track.resume(z);
+		dlog.lock().unwrap().clear();
+		mgr.backend_mut().callback(16, 2);
+		mgr.backend_mut().callback(16, 2);
+		let v = dlog.lock().unwrap().clone();
+		v
+	});
+	if let Outcome::Ok(v) = r {
+		// second chunk after the resume: the position as updated by the first one
+		let d = v.get(1).and_then(|x| x.1).unwrap_or(f32::NAN);
+		let frozen = (d as f64 - 10.0 * 16.0 / 1024.0).abs() < 1e-4;
+		let followed = (d as f64 - 10.0 * 528.0 / 1024.0).abs() < 1e-3;
+		s.count(if frozen { "late_parameter_frozen_while_track_paused" } else if followed { "late_parameter_followed_processed_time" } else { "late_parameter_other" });
+		s.notes.push(format!(
+			"spatial track paused, set_position(0 -> 10 over 1 s), 512 frames processed while paused, resumed: one chunk (16 frames) later the position is {d:?} ({}); the law of the processed time says {:?}, the model (position ticked only while the track advances) says {:?}",
+			if frozen { "frozen while paused, as the model has it" } else if followed { "followed the processed time" } else { "neither" },
+			10.0 * 528.0 / 1024.0,
+			10.0 * 16.0 / 1024.0
+		));
+	}
+}
+
+// -----------------------------------------------------------------------------------------------------
+// (e) values linked to the listener distance AT RUN TIME: a spatial sub-track's volume and a Parameter<f64> held by an
+// effect on it are set through handles to Value::FromListenerDistance with tweens; after the tween the listener and
+// the emitter move; the heard amplitude / the parameter must be the mapping of the CURRENT distance
+// -----------------------------------------------------------------------------------------------------
+#[derive(Clone, Debug)]
+enum DVal {
+	Fix(f64),
+	Dist { lo: f64, hi: f64, olo: f64, ohi: f64, easing: Easing },
+}
+impl DVal {
+	fn at(&self, d: Option<f32>, hold: f64) -> f64 {
+		match self {
+			DVal::Fix(x) => *x,
+			DVal::Dist { lo, hi, olo, ohi, easing } => match d {
+				Some(d) => {
+					let a = ((d as f64 - lo) / (hi - lo)).clamp(0.0, 1.0);
+					olo + (ohi - olo) * ease_pub(*easing, a)
+				}
+				None => hold,
+			},
+		}
+	}
+	fn term(&self, f32_valued: bool) -> String {
+		let b = |x: f64| if f32_valued { f32_bits_z(x as f32) } else { f64_bits_z(x) };
+		match self {
+			DVal::Fix(x) => format!("(DFix {})", b(*x)),
+			DVal::Dist { lo, hi, olo, ohi, easing } => {
+				let (ek, ep) = easing_code(*easing);
+				format!("(DDist {} {} {} {} {} {})", f64_bits_z(*lo), f64_bits_z(*hi), b(*olo), b(*ohi), ek, z(ep))
+			}
+		}
+	}
+}
+#[derive(Clone, Debug)]
+enum DCmd {
+	Vol(DVal, OTw),
+	Prm(DVal, OTw),
+	Listener(f32, OTw),
+	Emitter(f32, OTw),
+}
+#[derive(Clone, Debug)]
+struct DCb {
+	cmds: Vec<DCmd>,
+	frames: usize,
+}
+#[derive(Clone, Debug)]
+struct DstScen {
+	ibs: usize,
+	src: f32,
+	vol0: f32,
+	prm0: f64,
+	lis0: f32,
+	emit0: f32,
+	cbs: Vec<DCb>,
+}
+type PrmCmd = Arc<Mutex<Option<(Value<f64>, Tween)>>>;
+type PrmLog = Arc<Mutex<Vec<(usize, Option<f32>, f64)>>>;
+struct PrmProbe {
+	param: Parameter<f64>,
+	cmd: PrmCmd,
+	log: PrmLog,
+}
+impl Effect for PrmProbe {
+	fn on_start_processing(&mut self) {
+		if let Some((v, t)) = self.cmd.lock().unwrap().take() {
+			self.param.set(v, t);
+		}
+	}
+	fn process(&mut self, input: &mut [Frame], dt: f64, info: &Info) {
+		self.param.update(dt * input.len() as f64, info);
+		self.log.lock().unwrap().push((input.len(), info.listener_distance(), self.param.value()));
+	}
+}
+struct PrmProbeBuilder(f64, PrmCmd, PrmLog);
+impl EffectBuilder for PrmProbeBuilder {
+	type Handle = ();
+	fn build(self) -> (Box<dyn Effect>, ()) {
+		(Box::new(PrmProbe { param: Parameter::new(Value::Fixed(self.0), self.0), cmd: self.1, log: self.2 }), ())
+	}
+}
+fn dval_db(v: &DVal) -> Value<Decibels> {
+	match v {
+		DVal::Fix(x) => Value::Fixed(Decibels(*x as f32)),
+		DVal::Dist { lo, hi, olo, ohi, easing } => Value::FromListenerDistance(Mapping { input_range: (*lo, *hi), output_range: (Decibels(*olo as f32), Decibels(*ohi as f32)), easing: *easing }),
+	}
+}
+fn dval_f64(v: &DVal) -> Value<f64> {
+	match v {
+		DVal::Fix(x) => Value::Fixed(*x),
+		DVal::Dist { lo, hi, olo, ohi, easing } => Value::FromListenerDistance(Mapping { input_range: (*lo, *hi), output_range: (*olo, *ohi), easing: *easing }),
+	}
+}
+struct DstTrace {
+	/// per callback: per chunk (len, listener distance, probe parameter), and the device output (mono)
+	per_cb: Vec<(Vec<(usize, Option<f32>, f64)>, Vec<f32>)>,
+	tab: Vec<(u32, u32, u32)>,
+	panicked: Option<i128>,
+}
+fn run_dst(sc: &DstScen) -> DstTrace {
+	let _ = kira::verif::take_powf32_log();
+	let r = catch(|| {
+		let cmd: PrmCmd = Arc::new(Mutex::new(None));
+		let log: PrmLog = Arc::new(Mutex::new(vec![]));
+		let mut mgr: Mgr = manager(OSR, sc.ibs, Capacities::default(), MainTrackBuilder::new());
+		let mut listener = mgr.add_listener(v3(sc.lis0), quat_id()).unwrap();
+		let mut track = mgr
+			.add_spatial_sub_track(
+				listener.id(),
+				v3(sc.emit0),
+				SpatialTrackBuilder::new().volume(Decibels(sc.vol0)).attenuation_function(None).spatialization_strength(0.0).with_effect(PrmProbeBuilder(sc.prm0, cmd.clone(), log.clone())),
+			)
+			.unwrap();
+		track.play(crate::inject::Dc(sc.src)).unwrap();
+		let none: Vec<kira::clock::ClockId> = vec![];
+		let mut per_cb = vec![];
+		for cb in &sc.cbs {
+			for c in &cb.cmds {
+				match c {
+					DCmd::Vol(v, t) => track.set_volume(dval_db(v), mk_otween(&none, t)),
+					DCmd::Prm(v, t) => *cmd.lock().unwrap() = Some((dval_f64(v), mk_otween(&none, t))),
+					DCmd::Listener(x, t) => listener.set_position(v3(*x), mk_otween(&none, t)),
+					DCmd::Emitter(x, t) => track.set_position(v3(*x), mk_otween(&none, t)),
+				}
+			}
+			let out = mgr.backend_mut().callback(cb.frames, 2);
+			let mono: Vec<f32> = out.chunks(2).map(|c| if c[0].to_bits() == c[1].to_bits() { c[0] } else { f32::NAN }).collect();
+			per_cb.push((std::mem::take(&mut *log.lock().unwrap()), mono));
+		}
+		per_cb
+	});
+	let tab = kira::verif::take_powf32_log();
+	match r {
+		Outcome::Ok(per_cb) => DstTrace { per_cb, tab, panicked: None },
+		Outcome::Panic(c) => DstTrace { per_cb: vec![], tab, panicked: Some(1000 + c) },
+		Outcome::Hang => DstTrace { per_cb: vec![], tab, panicked: Some(2000) },
+	}
+}
+fn dst_term(sc: &DstScen, tr: &DstTrace) -> String {
+	let cbs = sc
+		.cbs
+		.iter()
+		.zip(tr.per_cb.iter())
+		.map(|(cb, (chunks, _))| {
+			let cmds: Vec<String> = cb
+				.cmds
+				.iter()
+				.filter_map(|c| match c {
+					DCmd::Vol(v, t) => Some(format!("DVol {} {}", v.term(true), otw_term(t))),
+					DCmd::Prm(v, t) => Some(format!("DPrm {} {}", v.term(false), otw_term(t))),
+					_ => None,
+				})
+				.collect();
+			format!(
+				"DCb [{}] [{}]",
+				cmds.join("; "),
+				chunks.iter().map(|(l, d, _)| format!("({}, {})", l, match d { Some(d) => f32_bits_z(*d), None => "(-2)".into() })).collect::<Vec<_>>().join("; ")
+			)
+		})
+		.collect::<Vec<_>>()
+		.join("; ");
+	format!("AOwn (CDst {} {} {} {} [{}] {})", OSR, f32_bits_z(sc.src), f32_bits_z(sc.vol0), f64_bits_z(sc.prm0), cbs, tab32_term(&tr.tab))
+}
+fn dst_obs(tr: &DstTrace) -> Vec<i128> {
+	if let Some(c) = tr.panicked {
+		return vec![c];
+	}
+	let mut o = vec![];
+	for (chunks, out) in &tr.per_cb {
+		let mut off = 0;
+		for (len, _, prm) in chunks {
+			off += len;
+			o.push(obs64(*prm));
+			o.push(obs32(out[off - 1]));
+		}
+	}
+	o
+}
+/// a parameter that may be linked: progress of the tween in force, start value, target
+struct LinkLaw {
+	progress: Law, // 0 -> 1 with the tween's timing
+	v0: f64,
+	target: DVal,
+	last: f64,
+	since_end: f64,
+}
+impl LinkLaw {
+	fn new(v: f64) -> LinkLaw {
+		LinkLaw { progress: Law::new(1.0), v0: v, target: DVal::Fix(v), last: v, since_end: 0.0 }
+	}
+	fn set(&mut self, target: &DVal, tw: &OTw) {
+		self.v0 = self.last;
+		self.target = target.clone();
+		self.progress = Law::new(0.0);
+		self.progress.set(1.0, tw);
+		self.since_end = 0.0;
+	}
+	/// the chunk is processed with the listener at distance `d`
+	fn advance(&mut self, dtc: f64, d: Option<f32>) -> f64 {
+		let was_over = self.progress.tw.is_none();
+		self.progress.advance(dtc, &vec![]);
+		if was_over {
+			self.since_end += dtc;
+		}
+		let tgt = self.target.at(d, self.last);
+		let p = self.progress.value();
+		self.last = if self.progress.tw.is_none() { tgt } else { self.v0 + (tgt - self.v0) * p };
+		self.last
+	}
+}
+fn dst_monitor(sc: &DstScen, tr: &DstTrace, checks: &mut (u64, u64)) -> Vec<String> {
+	let mut fails = vec![];
+	let mut vol = LinkLaw::new(sc.vol0 as f64);
+	let mut prm = LinkLaw::new(sc.prm0);
+	let mut moved_after = false;
+	for (k, (cb, (chunks, out))) in sc.cbs.iter().zip(tr.per_cb.iter()).enumerate() {
+		for c in &cb.cmds {
+			match c {
+				DCmd::Vol(v, t) => vol.set(v, t),
+				DCmd::Prm(v, t) => prm.set(v, t),
+				_ => moved_after = true,
+			}
+		}
+		let mut off = 0;
+		for (j, (len, d, pv)) in chunks.iter().enumerate() {
+			off += len;
+			let dtc = ODT * *len as f64;
+			let want_db = vol.advance(dtc, *d);
+			let want_prm = prm.advance(dtc, *d);
+			checks.0 += 1;
+			if moved_after && (matches!(vol.target, DVal::Dist { .. }) && vol.progress.tw.is_none() || matches!(prm.target, DVal::Dist { .. }) && prm.progress.tw.is_none()) {
+				checks.1 += 1;
+			}
+			let at = format!("callback {k}, chunk {j} ({len} frames), listener distance {d:?}");
+			let got = out[off - 1] as f64;
+			let want = (sc.src as f64 * db_amp(want_db as f32 as f64)).clamp(-1.0, 1.0);
+			if (got - want).abs() > 1e-3 * (1.0 + want.abs()) {
+				fails.push(format!(
+					"{at}: the track's last frame is {got:?} = {:.3} dB; its volume {} gives {want:?} = {want_db:.3} dB",
+					20.0 * (got / sc.src as f64).log10(),
+					describe_link(&vol)
+				));
+			}
+			if (pv - want_prm).abs() > 1e-6 * (1.0 + want_prm.abs()) {
+				fails.push(format!("{at}: the effect's parameter is {pv:?}; {} gives {want_prm:?}", describe_link(&prm)));
+			}
+		}
+	}
+	fails
+}
+fn describe_link(l: &LinkLaw) -> String {
+	let what = match &l.target {
+		DVal::Fix(x) => format!("set to the fixed value {x:?}"),
+		DVal::Dist { lo, hi, olo, ohi, easing } => format!("linked through its handle to the listener distance (distance {lo:?}..{hi:?} -> {olo:?}..{ohi:?}, {easing:?})"),
+	};
+	match &l.progress.tw {
+		None => format!("{what}, its tween over for {} s of processed time", l.since_end),
+		Some(_) => format!("{what}, from {:?}, tween: {}", l.v0, l.progress.describe()),
+	}
+}
+fn gen_dval(r: &mut Rng, db: bool) -> DVal {
+	if r.chance(1, 4) {
+		DVal::Fix(if db { *r.pick(&[0.0, -6.0, -12.5]) } else { *r.pick(&[0.0, 100.0, 2500.5]) })
+	} else {
+		let easing = match r.below(4) {
+			0 => Easing::InPowi(2),
+			1 => Easing::OutPowi(3),
+			_ => Easing::Linear,
+		};
+		let (lo, hi) = *r.pick(&[(0.0, 100.0), (1.0, 50.0), (0.0, 20.0)]);
+		if db {
+			DVal::Dist { lo, hi, olo: *r.pick(&[0.0, -3.0]), ohi: *r.pick(&[-40.0, -24.0, -59.0]), easing }
+		} else {
+			DVal::Dist { lo, hi, olo: *r.pick(&[20000.0, 1.0]), ohi: *r.pick(&[200.0, 0.0]), easing }
+		}
+	}
+}
+fn gen_dtw(r: &mut Rng) -> OTw {
+	// zero / short / long, immediate or delayed
+	let dur_ns = match r.below(4) {
+		0 => 0,
+		1 => r.below(3_000_000) + 1,
+		2 => (r.below(20) + 4) * 976_562,
+		_ => (r.below(100) + 30) * 976_562 + 333,
+	};
+	OTw { start: if r.chance(1, 5) { Start::Del((r.below(30) + 2) * 976_562) } else { Start::Imm }, dur_ns, easing: if r.chance(1, 3) { Easing::OutPowi(2) } else { Easing::Linear } }
+}
+fn gen_dst(r: &mut Rng) -> DstScen {
+	let ibs = *r.pick(&[8usize, 16, 32]);
+	let pos = |r: &mut Rng| *r.pick(&[0.0f32, 1.0, 5.0, 10.0, 25.5, 50.0, 80.0, 120.0, -30.0]);
+	let frames = |r: &mut Rng| match r.below(5) {
+		0 => 1,
+		1 => ibs,
+		_ => r.below(3 * ibs as u64) as usize + 1,
+	};
+	let mut cbs = vec![];
+	for _ in 0..r.below(2) {
+		cbs.push(DCb { cmds: vec![], frames: frames(r) });
+	}
+	// link at run time
+	let mut cmds = vec![];
+	if r.chance(4, 5) {
+		cmds.push(DCmd::Vol(gen_dval(r, true), gen_dtw(r)));
+	}
+	if cmds.is_empty() || r.chance(3, 4) {
+		cmds.push(DCmd::Prm(gen_dval(r, false), gen_dtw(r)));
+	}
+	cbs.push(DCb { cmds, frames: frames(r) });
+	// let the tweens run (most of the time to completion: at most ~165 frames)
+	for _ in 0..r.range(2, 5) {
+		cbs.push(DCb { cmds: if r.chance(1, 6) { vec![DCmd::Listener(pos(r), gen_dtw(r))] } else { vec![] }, frames: 2 * ibs + r.below(2 * ibs as u64) as usize });
+	}
+	// then move the listener and the emitter, with and without tweens
+	for _ in 0..r.range(3, 7) {
+		let mut cmds = vec![];
+		match r.below(5) {
+			0 | 1 => cmds.push(DCmd::Listener(pos(r), gen_dtw(r))),
+			2 => cmds.push(DCmd::Emitter(pos(r), gen_dtw(r))),
+			3 => {
+				cmds.push(DCmd::Listener(pos(r), tw0()));
+				cmds.push(DCmd::Emitter(pos(r), tw0()));
+			}
+			_ => {}
+		}
+		if r.chance(1, 8) {
+			cmds.push(DCmd::Vol(gen_dval(r, true), gen_dtw(r)));
+		}
+		if r.chance(1, 8) {
+			cmds.push(DCmd::Prm(gen_dval(r, false), gen_dtw(r)));
+		}
+		cbs.push(DCb { cmds, frames: frames(r) });
+	}
+	DstScen { ibs, src: 0.5, vol0: *r.pick(&[0.0f32, -6.0]), prm0: *r.pick(&[1000.0, 0.0]), lis0: pos(r), emit0: pos(r), cbs }
+}
+fn owners_distance(s: &mut Session, rng: &mut Rng, n: u64) {
+	for _ in 0..n {
+		let sc = gen_dst(rng);
+		let tr = run_dst(&sc);
+		let term = dst_term(&sc, &tr);
+		s.case("owner_distance_linked", term.clone(), &dst_obs(&tr), Some(hash_key(&term)));
+		if tr.panicked.is_some() {
+			s.fail(format!("{sc:?}"), "panic while driving a spatial track through the manager".into(), None);
+			continue;
+		}
+		let mut checks = (0, 0);
+		let fails = dst_monitor(&sc, &tr, &mut checks);
+		*s.hist.entry("distance_chunks_judged".into()).or_insert(0) += checks.0;
+		*s.hist.entry("distance_chunks_judged_linked_tween_over_after_a_move".into()).or_insert(0) += checks.1;
+		for f in fails {
+			s.fail(format!("constant sound on a spatial sub-track (no attenuation, strength 0) with a parameter-holding effect, 1024 Hz, internal buffer {}: {:?}", sc.ibs, sc), f, None);
+		}
+	}
+}
+
 fn owners(s: &mut Session, rng: &mut Rng, args: &Args) {
 	let mul = args.budget_mul * if args.thorough { 8 } else { 1 };
-	owners_sounds(s, rng, 120 * mul);
+	// Rng::new(seed) and Rng::new(seed + 1) are the same stream shifted by one: continue from a scrambled state
+	let rng = &mut rng.fork();
+	owners_sounds(s, rng, 80 * mul);
+	owners_tracks(s, rng, 40 * mul);
+	s.flush();
+	s.shard_size = 20;
+	owners_renderer(s, rng, 40 * mul);
+	owners_distance(s, rng, 40 * mul);
+	late_parameter_witness(s);
 }
